@@ -13,6 +13,9 @@
 //	ct <uid> <token> <a|i> | ut <id> <a|i> | dt <id>          create / update status / delete an API token
 //	cs <name> <long|exp>                  CreateSession (1h, or already expired 1h ago) -> key, user id
 //	xs <key>                              ExpireSession
+//	renew <key> <near|far>                RenewSession with the session OBJECT kept from CreateSession of that key
+//	                                      (possibly stale: the session may have ended since); new expiry now+5min
+//	                                      (near: does not extend a 1 h session) or now+2h (far); configuration A only
 //	req <authorization header|-> <cookie value|->             GET through the AuthenticationHandler
 //	                                      -> <status> <inner handler reached> <PermissionSet ok|err|-> <user id>
 //	phc <decoders 1|2|3> <256|512> <mangle 0..7> <pw> <q>     AuthorizationHasher(variant, decoder variants).Hash(pw),
@@ -87,6 +90,8 @@ type runner struct {
 	sessExp  *session.Service
 	handler  *influxhttp.AuthenticationHandler
 	org      platform.ID
+	cfgB     bool
+	handles  map[string]*influxdb.Session // session objects as returned by CreateSession
 	// what the inner handler saw
 	reached bool
 	pset    string
@@ -96,7 +101,7 @@ type runner struct {
 func (r *runner) reset(strong, hashed bool, cfgB bool) {
 	ctx := context.Background()
 	t := tops.New()
-	*r = runner{t: t}
+	*r = runner{t: t, cfgB: cfgB, handles: map[string]*influxdb.Session{}}
 	t.Svc.SetUserOptions(tenant.WithPasswordChecking(strong))
 	o := &influxdb.Organization{Name: "o"}
 	if err := t.Svc.CreateOrganization(ctx, o); err != nil {
@@ -314,7 +319,30 @@ func (r *runner) Op(t []string) string {
 		if err != nil {
 			return tops.Code(err)
 		}
+		r.handles[s.Key] = s
 		return "ok " + h.HexS(s.Key) + " " + tops.U(s.UserID)
+	case t[0] == "renew" && len(t) == 3:
+		k, ok := tops.NameTok(t[1])
+		far, ok2 := flag(t[2], "far", "near")
+		if !ok || !ok2 {
+			return bad
+		}
+		if r.cfgB {
+			return "err unsupported"
+		}
+		hd, have := r.handles[k]
+		if !have {
+			return "err nohandle"
+		}
+		exp := time.Now().Add(influxdb.RenewSessionTime)
+		if far {
+			exp = time.Now().Add(2 * time.Hour)
+		}
+		stale := *hd // the caller's copy, as an in-flight request holds it
+		if err := r.sessLong.RenewSession(ctx, &stale, exp); err != nil {
+			return tops.Code(err)
+		}
+		return "ok"
 	case t[0] == "xs" && len(t) == 2:
 		k, ok := tops.NameTok(t[1])
 		if !ok {
@@ -507,8 +535,19 @@ func gen(r *h.Rand, tier string, emit func([]string)) {
 			case k < 62:
 				ops = append(ops, "cs "+h.HexS(h.Pick(r, append(append([]string{}, names[:nu]...), names[0], "nobody")))+" "+h.Pick(r, []string{"long", "long", "long", "exp"}))
 			case k < 64:
-				ops = append(ops, "xs "+h.HexS(h.Pick(r, keys)))
-			case k < 72:
+				k0 := h.Pick(r, keys)
+				ops = append(ops, "xs "+h.HexS(k0))
+				// the in-flight request of a signed-out user: renew with the stale object, then use the key again
+				if r.Chance(0.6) {
+					ops = append(ops, "renew "+h.HexS(k0)+" "+h.Pick(r, []string{"far", "far", "near"}), "req - "+h.HexS(k0))
+				}
+			case k < 67:
+				k0 := h.Pick(r, keys)
+				ops = append(ops, "renew "+h.HexS(k0)+" "+h.Pick(r, []string{"far", "near"}))
+				if r.Chance(0.5) {
+					ops = append(ops, "req - "+h.HexS(k0))
+				}
+			case k < 73:
 				p := h.Pick(r, []string{"tokA", "tokB", "", "a", "tokA ", "Password1"})
 				q := p
 				if r.Chance(0.4) {
